@@ -52,8 +52,12 @@ def _digest(key) -> bytes:
 
 
 # --------------------------------------------------------------------------- scope
+def _is_cat(t):
+    return t.startswith("cat")
+
+
 def _factor_names(types):
-    return [mf.CAT_NAMES[i] if t != "num" else mf.NUM_NAMES[i] for i, t in enumerate(types)]
+    return [mf.CAT_NAMES[i] if _is_cat(t) else mf.NUM_NAMES[i] for i, t in enumerate(types)]
 
 
 def _type_multisets(nf, types=TYPES):
@@ -69,7 +73,8 @@ def _term_sets(nf, max_terms):
 def _replicates(types):
     # per cell of the categorical design the numeric monomials (<= 2^#numeric of them) must be
     # linearly independent for the design to be "in general position"
-    return max(2, 2 ** sum(1 for t in types if t == "num"))
+    # (a spline factor "bsK" contributes K functions of its variable, a plain numeric 2: the constant and itself)
+    return max(2, math.prod(2 if t == "num" else int(t[2:]) for t in types if not _is_cat(t)))
 
 
 _FRAMES = {}
@@ -104,10 +109,10 @@ def _frames_for(types, seed, integer, scheme=None):
     if key not in _FRAMES:
         names = _factor_names(types)
         if scheme is None:
-            cats = [(names[i], int(t[3]), "category" if i % 2 == 0 else "object") for i, t in enumerate(types) if t != "num"]
+            cats = [(names[i], int(t[3]), "category" if i % 2 == 0 else "object") for i, t in enumerate(types) if _is_cat(t)]
         else:
-            cats = [_scheme_column(names[i], int(t[3]), scheme) for i, t in enumerate(types) if t != "num"]
-        nums = [names[i] for i, t in enumerate(types) if t == "num"]
+            cats = [_scheme_column(names[i], int(t[3]), scheme) for i, t in enumerate(types) if _is_cat(t)]
+        nums = [names[i] for i, t in enumerate(types) if not _is_cat(t)]
         out = []
         for which in (0, 1):
             rng = random.Random(f"{seed}/{types}/{which}/{scheme}")
@@ -120,6 +125,9 @@ def _frames_for(types, seed, integer, scheme=None):
 def _factor_text(name, typ, contrast, scheme=None):
     if typ == "num":
         return name
+    if typ.startswith("bs"):
+        # a NUMERIC multi-column factor that spans the intercept: the K B-spline basis functions sum to one
+        return f"bs({name}, df={int(typ[2:])}, include_intercept=True)"
     if contrast is None:
         # plain numpy int/bool columns are categorical only through C(...)
         return f"C({name})" if scheme is not None and scheme.startswith("raw-") else name
@@ -347,7 +355,7 @@ def _scope(ctx, b, units, exact, label):
     # most expensive units first (permutations x rows), small chunks: keeps the 16 workers evenly loaded
     def cost(u):
         nperm = u[8] if u[8] else math.factorial(len(u[1]))
-        cells = math.prod(int(t[3]) for t in u[0] if t != "num")
+        cells = math.prod(int(t[3]) for t in u[0] if _is_cat(t))
         return -(nperm * len(u[7]) * _replicates(u[0]) * cells)
 
     units = sorted(units, key=cost)
@@ -463,6 +471,31 @@ def run_bounded(ctx):
                + "; every permutation; intercept first/absent; 9 label schemes"),
     ) as b:
         _scope(ctx, b, units, True, "level-labels")
+
+    # ---- scope 1d: a NUMERIC factor that spans the intercept (B-spline basis with include_intercept=True, columns sum to
+    # one), alone, next to an intercept / a categorical / a numeric, and interacted with them.  Values are not integers and
+    # "sum to one" holds only up to rounding, so ranks are numeric (SVD, tolerance as stated).
+    units = []
+    if ctx.thorough:
+        spline_types = [(("bs4",), 1), (("bs5",), 1), (("cat2", "bs4"), 3), (("cat3", "bs4"), 3), (("cat3", "bs5"), 3), (("num", "bs4"), 3),
+                        (("cat1", "bs4"), 3), (("bs4", "bs4"), 3), (("cat2", "cat3", "bs4"), 4), (("cat2", "num", "bs4"), 4),
+                        (("cat3", "bs4", "bs4"), 3), (("cat2", "cat2", "bs5"), 3)]
+    else:
+        spline_types = [(("bs4",), 1), (("cat2", "bs4"), 3), (("cat3", "bs4"), 3), (("num", "bs4"), 3), (("cat2", "cat3", "bs4"), 3),
+                        (("cat2", "num", "bs4"), 2)]
+    for types, max_terms in spline_types:
+        for terms in _term_sets(len(types), max_terms):
+            units.append((types, terms, seed, False, None, "none", False, ("first", "off"), None))
+    with ctx.bounded(
+        "rank-span-numeric-factor-spanning-intercept",
+        rule="factor vocabulary extended by bs(x, df=K, include_intercept=True) (type 'bsK', data inside the spline bounds); "
+             f"ranks by SVD on column-normalised matrices (singular values <= {SVD_RTOL} * sigma_max are zero); replicates per "
+             "cell = product of (2 per numeric, K per spline)",
+        exhaustive=True,
+        bound="type tuples " + ", ".join("(" + ",".join(t) + f")<= {m} terms" for t, m in spline_types)
+              + "; all term sets, every permutation, intercept first/absent",
+    ) as b:
+        _scope(ctx, b, units, False, "spline-intercept")
 
     if ctx.thorough:
         rng = random.Random(seed + 3)
